@@ -97,7 +97,39 @@ func (r *v12FSMRun) state() v12State {
 	return st
 }
 
+// admitted runs the REAL leader-side precondition check of the operation
+// (metadata.go check*Preconditions, what raftNode.applyOperation calls before
+// proposing) on the first server, which plays the metadata leader.
+func (r *v12FSMRun) admitted(op *proto.RaftLog) (ok bool) {
+	m := r.srv[r.servers[0]].metadata
+	defer func() {
+		if p := recover(); p != nil {
+			ok = false
+		}
+	}()
+	var err error
+	switch op.Op {
+	case proto.Op_CREATE_STREAM:
+		err = m.checkCreateStreamPreconditions(op)
+	case proto.Op_DELETE_STREAM:
+		err = m.checkDeleteStreamPreconditions(op)
+	case proto.Op_CREATE_CONSUMER_GROUP:
+		err = m.checkCreateConsumerGroupPreconditions(op)
+	case proto.Op_JOIN_CONSUMER_GROUP:
+		err = m.checkJoinConsumerGroupPreconditions(op)
+	case proto.Op_LEAVE_CONSUMER_GROUP:
+		err = m.checkLeaveConsumerGroupPreconditions(op)
+	case proto.Op_CHANGE_CONSUMER_GROUP_COORDINATOR:
+		err = m.checkChangeGroupCoordinatorPreconditions(op)
+	}
+	return err == nil
+}
+
 func (r *v12FSMRun) applyAll(o map[string]interface{}, obs *v12Obs, deleted string) {
+	if !r.admitted(v06BuildOp(o)) {
+		obs.Err = "precondition"
+		return
+	}
 	r.idx++
 	for _, v := range r.servers {
 		before := r.gate.count()
